@@ -486,7 +486,7 @@ def work(chunk):
 # ------------------------------------------------------------------ driver
 def run(ctx: Ctx):
     from vf.prove import prove
-    prove(ctx, ["specs.mst"], "C13", lemma_groups=("uf", "wsum"))  # deductive part (specs/mst.py)
+    prove(ctx, ["specs.mst"], "C13", lemma_groups=("uf", "wsum", "wsumN"))  # deductive part (specs/mst.py)
     use_repo()
     q = ctx.quick
     seed = ctx.seed
